@@ -34,6 +34,8 @@ type Recorder struct {
 	mem   []Ev // in-memory copy of the current trace (optional)
 	keep  bool
 	lines int
+	// Sync: flush after every event (traces that must survive a crash of the process)
+	Sync bool
 }
 
 func NewRecorder(path string) (*Recorder, error) {
@@ -69,6 +71,9 @@ func (r *Recorder) emitLocked(ev Ev) {
 	}
 	r.w.Write(b)
 	r.w.WriteByte('\n')
+	if r.Sync {
+		r.w.Flush()
+	}
 	r.lines++
 	if r.keep {
 		r.mem = append(r.mem, ev)
